@@ -3,7 +3,10 @@ package props
 import (
 	"fmt"
 	"math"
+	"strconv"
+	"strings"
 	"time"
+	"unicode/utf8"
 
 	"verif/harness/bridge"
 	"verif/harness/ref"
@@ -208,6 +211,74 @@ func hasNaN(v *ref.V) bool {
 	return false
 }
 
+// litOf writes a value as a literal expression; nil when it has no literal
+// form (non-finite numbers, sub-second times, invalid UTF-8, empty containers
+// whose literal would have the bottom element type, optionals).
+func litOf(v *ref.V) *ref.E {
+	switch v.T.K {
+	case ref.KNum:
+		if math.IsNaN(v.N) || math.IsInf(v.N, 0) {
+			return nil
+		}
+		a := math.Abs(v.N)
+		e := ref.Num(ref.FmtNum(a), a)
+		if math.Signbit(v.N) {
+			return ref.CallF(ref.FPrefix, "-", e)
+		}
+		return e
+	case ref.KStr:
+		if !utf8.ValidString(v.S) || strings.ContainsRune(v.S, 0xFFFD) {
+			return nil
+		}
+		return ref.Str(v.S)
+	case ref.KBool:
+		return ref.Bool(v.B)
+	case ref.KTime:
+		if v.Tm.Nanosecond() != 0 {
+			return nil
+		}
+		return ref.Time("@"+strconv.FormatInt(v.Tm.Unix(), 10), v.Tm.Unix())
+	case ref.KList:
+		if len(v.L) == 0 {
+			return nil
+		}
+		xs := make([]*ref.E, len(v.L))
+		for i, x := range v.L {
+			if xs[i] = litOf(x); xs[i] == nil {
+				return nil
+			}
+		}
+		return ref.List(xs...)
+	case ref.KMap:
+		if len(v.M) == 0 {
+			return nil
+		}
+		ks, vs := make([]*ref.E, len(v.M)), make([]*ref.E, len(v.M))
+		for i, kv := range v.M {
+			ks[i], vs[i] = litOf(kv.K), litOf(kv.V)
+			if ks[i] == nil || vs[i] == nil {
+				return nil
+			}
+		}
+		return ref.Map(ks, vs)
+	case ref.KObj:
+		fs, vs := make([]string, len(v.O)), make([]*ref.E, len(v.O))
+		for i, f := range v.T.Fs {
+			if !isPlainIdent(f.Name) && !isIdentLike(f.Name) {
+				return nil
+			}
+			fs[i] = f.Name
+			if vs[i] = litOf(v.O[i]); vs[i] == nil {
+				return nil
+			}
+		}
+		return ref.Obj(fs, vs)
+	}
+	return nil
+}
+
+func isIdentLike(s string) bool { return ref.IsIdentLikeOp(s) && !ref.Reserved(s) }
+
 type c18Obs struct {
 	eq, eqRev                    bool
 	union, inter, diff           float64
@@ -294,6 +365,40 @@ func checkSameness(c *run.Ctx, a, b *ref.V, what string, precondition bool) {
 			}
 			if is.B != E || ml.N != wantL {
 				c.Violation("eq-vs-map-key", fmt.Sprintf("a==b is %v but isset([a:0], b)=%v and len([a:0, b:1])=%v; %s", E, is.B, ml.N, desc), nil)
+			}
+		}
+	}
+	// the same pair written as literals
+	if la, lb := litOf(a), litOf(b); la != nil && lb != nil {
+		c.Count("literal_pairs_checked", 1)
+		empty := bridge.NewEnv()
+		lget := func(e *ref.E) *ref.V {
+			v, err := evalOn(c, empty, e)
+			if err != "" {
+				c.Violation("sameness-eval", fmt.Sprintf("%s (as literals): %s", what, err), nil)
+				return nil
+			}
+			return v
+		}
+		leq := lget(ref.CallF(ref.FInfix, "==", ref.List(la), ref.List(lb)))
+		lun := lget(ref.Call("len", ref.Call("union", ref.List(la.Clone()), ref.List(lb.Clone()))))
+		lsa := lget(ref.Call("string", ref.List(la.Clone())))
+		lsb := lget(ref.Call("string", ref.List(lb.Clone())))
+		if leq != nil && lun != nil && lsa != nil && lsb != nil {
+			if leq.B != E {
+				c.Violation("literal-vs-host", fmt.Sprintf("[a]==[b] is %v on host data but %v when the same values are written as literals; %s", E, leq.B, desc), nil)
+			}
+			if (lun.N == 1) != leq.B {
+				c.Violation("eq-vs-set-membership", fmt.Sprintf("as literals: [a]==[b] is %v but len(union([a],[b]))=%v; %s", leq.B, lun.N, desc), nil)
+			}
+			if a.T.IsPrim() {
+				lis := lget(ref.Call("isset", ref.Map([]*ref.E{la.Clone()}, []*ref.E{ref.Num("0", 0)}), lb.Clone()))
+				if lis != nil && lis.B != leq.B {
+					c.Violation("eq-vs-map-key", fmt.Sprintf("as literals: a==b is %v but isset([a:0], b)=%v; %s", leq.B, lis.B, desc), nil)
+				}
+			}
+			if lsa.S != ref.Stringify(ref.VList(a.T, a)) || lsb.S != ref.Stringify(ref.VList(b.T, b)) {
+				c.Violation("string-vs-reference", fmt.Sprintf("as literals: string([a])=%q string([b])=%q, reference %q / %q; %s", lsa.S, lsb.S, ref.Stringify(ref.VList(a.T, a)), ref.Stringify(ref.VList(b.T, b)), desc), nil)
 			}
 		}
 	}
@@ -397,7 +502,7 @@ func runC18(c *run.Ctx) {
 func init() {
 	run.Register(&run.Spec{
 		ID: "C18", Run: runC18, Level: "exploration",
-		Rule: "pairs (a,b) of values of equal type (random types to depth 2: numbers across 2^53 / 2^62 / 2^63 / 2^64 / 1e19 / 1e20 / 1e300 / ±Inf whose pairwise differences are 0 or far above 1e-9, strings needing escapes or looking like renderings, times incl. sub-second, lists, maps, objects, optionals): identical, re-laid-out (permuted object fields, reversed map insertion order, at every depth) or with one leaf changed; all pairs of the number pool and of the string pool; a physically shared sub-value; bound as host data (raw environments with the value's own layout); " +
+		Rule: "pairs (a,b) of values of equal type (random types to depth 2: numbers across 2^53 / 2^62 / 2^63 / 2^64 / 1e19 / 1e20 / 1e300 / ±Inf whose pairwise differences are 0 or far above 1e-9, strings needing escapes or looking like renderings, times incl. sub-second, lists, maps, objects, optionals): identical, re-laid-out (permuted object fields, reversed map insertion order, at every depth) or with one leaf changed; all pairs of the number pool and of the string pool; a physically shared sub-value; bound as host data (raw environments with the value's own layout) and, whenever the values have a literal form, written as literals; " +
 			"monitor: [a]==[b] vs [b]==[a] vs != vs [a]==[a]; == <=> equal Val.String() <=> len(union)=1, len(intersect)=1, len(diff)=0 <=> (primitives) isset([a:0],b) and len([a:0,b:1])=1; both renderers equal the reference renderers. distinct = distinct (a,b,layout)",
 		Assume:    []string{"precondition of the property is built into the pools (no two numbers closer than the tolerance unless identical)", "NaN and equal instants in different time.Location are recorded known findings"},
 		MinEvents: 3000, EventKey: "pairs_checked",
